@@ -54,6 +54,8 @@ type cell struct {
 	Late        bool   `json:"release_after_threshold,omitempty"`
 	Edge        string `json:"edge,omitempty"` // S-at-edge | P-at-edge: that worker ends edge_delta_us before the threshold passes (its timer is released while it fires)
 	EdgeDeltaUs int    `json:"edge_delta_us,omitempty"`
+	Timed       string `json:"timed,omitempty"` // deadline | p-release (see timed.go)
+	SAtMs       int    `json:"secondary_finishes_at_ms,omitempty"`
 	SettleUs    int    `json:"settle_us"`
 	Procs       int    `json:"gomaxprocs"`
 	Rep         int    `json:"rep"`
@@ -68,6 +70,9 @@ func (c cell) class() string {
 	edge := ""
 	if c.Edge != "" {
 		edge = "|" + c.Edge
+	}
+	if c.Timed != "" {
+		edge = "|timed-" + c.Timed
 	}
 	return fmt.Sprintf("%s|%s|P=%s,S=%s|%s|pause=%s|cancel=%d|race=%d%s", sb, c.Regime, c.POut, c.SOut, c.Order, c.Pause, c.Cancel, c.CancelRace, edge)
 }
@@ -90,20 +95,6 @@ func (s *statsT) minSlack(d time.Duration) {
 }
 
 var stats statsT
-
-// lagMonitor measures how late 1 ms sleeps wake up: the only use is to turn
-// bounded-progress verdicts into "inconclusive" when the machine itself stalled.
-var maxLagNs atomic.Int64
-
-func lagMonitor() {
-	for {
-		t0 := now()
-		time.Sleep(time.Millisecond)
-		if lag := int64(now() - t0 - time.Millisecond); lag > maxLagNs.Load() {
-			maxLagNs.Store(lag)
-		}
-	}
-}
 
 // splitMix is a cheap seed-determined generator for per-case choices
 // (math/rand's seeding costs more than a whole case).
@@ -138,7 +129,7 @@ func buildPlugins() {
 		"c20_secondary": &worker{role: roleS},
 	})
 	for _, sb := range []bool{false, true} {
-		for _, ms := range []int{5000, 10, 20, 40, 1, 2, 3} {
+		for _, ms := range []int{5000, 10, 20, 40, 1, 2, 3, timedThresholdMs} {
 			bp := coremain.NewBP(fmt.Sprintf("c20_fallback_%v_%d", sb, ms), m)
 			p, err := fallback.Init(bp, &fallback.Args{Primary: "c20_primary", Secondary: "c20_secondary", Threshold: ms, AlwaysStandby: sb})
 			if err != nil {
@@ -205,7 +196,9 @@ func newRun(c cell) *run {
 
 func runCase(c cell) caseResult {
 	r := newRun(c)
-	if c.Edge != "" {
+	if c.Timed != "" {
+		r.executeTimed()
+	} else if c.Edge != "" {
 		r.executeEdge()
 	} else {
 		r.execute(c.Rep%4 == 3)
@@ -278,8 +271,80 @@ func sampleKind(c cell, r *run) string {
 	return ""
 }
 
+// runTimedUnit: timed cells (timed.go). A case that fails the machine-was-on-time
+// guard is retried; a late verdict has to reproduce immediately to be reported.
+func runTimedUnit(u unit, local map[string]int64) {
+	for i := 0; i < u.reps; i++ {
+		if aborted.Load() {
+			return
+		}
+		c := u.c
+		c.Rep = i
+		rng := newSplitMix(u.c.Seed + int64(i)*7919)
+		c.CtxKind = []string{"nodeadline", "deadline"}[rng.Intn(2)]
+		for try := 0; try < 3; try++ {
+			c.Seed = rng.Int63n(1 << 40)
+			res := runCase(c)
+			rep.Eval(1)
+			local["cases"]++
+			local["cases:timed/"+c.Timed]++
+			report := func(res caseResult, fs []finding) {
+				for _, f := range fs {
+					rep.Violation(f.Key, f.What, map[string]any{"cell": c, "events": res.r.snapshot(), "mismatch": res.r.mm})
+				}
+				if violCases.Add(1) >= abortAfter {
+					aborted.Store(true)
+				}
+			}
+			if len(res.findings) > 0 {
+				report(res, res.findings)
+				return
+			}
+			ti := res.r.timed
+			if ti.discard != "" {
+				local["timed_cases_not_judged(machine late)"]++
+				rep.Extra("timed_last_not_judged_reason", ti.discard)
+				continue
+			}
+			if !ti.late {
+				local["timed_cases_on_time"]++
+				rep.Max("timed_max_return_lateness_us(after threshold, on-time cases)", int64((ti.retAt-ti.dueAt)/time.Microsecond))
+				rep.Nontrivial(res.fp)
+				local["nontrivial_cases"]++
+				sampleMu.Lock()
+				if k := "timed " + c.Timed; !sampled[k] && rep.WantSample() {
+					sampled[k] = true
+					rep.Sample(map[string]any{"what": k, "case": c, "result": res.r.result, "events": res.r.snapshot()})
+				}
+				sampleMu.Unlock()
+				break
+			}
+			// late with the machine on time: must reproduce at once
+			local["timed_late_candidates"]++
+			c.Seed = rng.Int63n(1 << 40)
+			res2 := runCase(c)
+			rep.Eval(1)
+			local["cases"]++
+			if len(res2.findings) > 0 {
+				report(res2, res2.findings)
+				return
+			}
+			if res2.r.timed.late {
+				t2 := res2.r.timed
+				report(res2, []finding{{"R4-standby-" + t2.lateWhat, t2.lateText + " (reproduced in two consecutive executions)"}})
+				return
+			}
+			local["timed_late_not_reproduced"]++
+		}
+	}
+}
+
 func runUnit(u unit, lrn []learned, local map[string]int64) {
 	caselog.Log(u.c)
+	if u.c.Timed != "" {
+		runTimedUnit(u, local)
+		return
+	}
 	for i := 0; i < u.reps; i++ {
 		if aborted.Load() {
 			local["units_cut_short_after_abort"]++
@@ -469,6 +534,9 @@ func main() {
 			runtime.GOMAXPROCS(c.Cell.Procs)
 		}
 		u := unit{c: c.Cell, reps: 200}
+		if c.Cell.Timed != "" {
+			u.reps = 4
+		}
 		local := map[string]int64{}
 		// re-execute exactly the recorded case first, then neighbours
 		res := runCase(c.Cell)
@@ -488,6 +556,7 @@ func main() {
 	repsLong := rep.Pick(100, 1000)
 	repsShort := rep.Pick(24, 240)
 	repsEdge := rep.Pick(400, 5000)
+	repsTimed := rep.Pick(2, 12)
 	parallel := 96
 	rng := rand.New(rand.NewSource(rep.Seed))
 	bases := baseCells()
@@ -518,6 +587,13 @@ func main() {
 					c.Edge = "P-at-edge"
 				}
 				us = append(us, unit{c: c, reps: repsEdge, base: -1})
+			}
+			// timed cells (upper-bound oracle, guarded by the lag monitor): they mostly sleep
+			for i := 0; i < 24; i++ {
+				c := cell{Standby: true, Regime: "short", ThresholdMs: timedThresholdMs, SAtMs: timedSAtMs, POut: "answer", SOut: "answer",
+					Order: "Pslow", Pause: "none", Cancel: -1, CancelRace: -1, Timed: []string{"deadline", "p-release"}[i%2],
+					Procs: procs, SettleUs: settleUs, Seed: rng.Int63n(1 << 40)}
+				us = append(us, unit{c: c, reps: repsTimed, base: -1})
 			}
 			return us
 		}
@@ -597,6 +673,9 @@ func main() {
 		}
 		if rep.Get("pause_windows_realised") == 0 {
 			rep.Inconclusive("the pause window after fallback.primary.signalled was never realised")
+		}
+		if rep.Get("timed_cases_on_time") == 0 {
+			rep.Inconclusive("no timed case could be judged: the machine was late in all %d attempts", rep.Get("timed_cases_not_judged(machine late)"))
 		}
 		if rep.Get("context_end_realised") == 0 || rep.Get("R1_secondary_starts_checked") == 0 {
 			rep.Inconclusive("monitor observed no context end / no secondary start")
